@@ -162,6 +162,49 @@ theorem C18_ser_blame_runRows (ext : Ext) [ExtPlain ext] (fields : List Field) (
       | error e => rw [hp] at h; exact h
     exact C18_ser_blame_reachable ext fields root0 h0 hcov htot rows root hb hrows x hraw (hsize root0 h0) msg ann hx
 
+/-! ### the well-formed raw stream as the next record -/
+
+theorem ShapeL_length : ∀ (bl : BL) (fs : Fields), ShapeL bl fs → bl.length = fs.toList.length
+  | .nil, .nil, _ => rfl
+  | .cons _ _ r, .cons (.mk _ _ _ _) rest, h => by
+    simp only [ShapeL] at h
+    simp only [BL.length, Fields.toList, List.length_cons, ShapeL_length r rest h.2.2.2]
+  | .nil, .cons _ _, h => by simp [ShapeL] at h
+  | .cons _ _ _, .nil, h => by simp [ShapeL] at h
+
+theorem toList_ofList : ∀ (fields : List Field), (Fields.ofList fields).toList = fields
+  | [] => rfl
+  | f :: r => by simp only [Fields.ofList, Fields.toList, toList_ofList r]
+
+/-- **C18_ser_blame_raw_reachable**: `C18_ser_blame_raw` at the record level with hypotheses on the input only.  The next
+record is a WELL-FORMED raw stream of `serialize_key` / `serialize_value` calls (`isAlternating ops`) whose keys and values
+carry no further raw streams; the schema has fewer than `usize::MAX` fields (so that a field index is never the
+`UNKNOWN_KEY` marker of `StructBuilder`: the hypothesis `hbig` of `C18_ser_blame_raw`, here derived from the field count);
+the size bound is stated for the entries of the stream. -/
+theorem C18_ser_blame_raw_reachable (ext : Ext) [ExtPlain ext] (fields : List Field) (root0 : B)
+    (h0 : newRoot fields = .ok root0) (hcov : fields.all coveredWF = true)
+    (htot : total (.struct (Fields.ofList fields)) false [] = true) (hlen : fields.length ≤ UNKNOWN_KEY)
+    (rows : List SVal) (root : B) (hb : rows.foldlM (push ext) root0 = .ok root) (hrows : ∀ r ∈ rows, noRaw r = true)
+    (ops : SMapOps) (halt : isAlternating ops = true) (hraw : noRawe (toEntries ops) = true)
+    (hsize : sizeSum ext rows + vsize ext (.map (toEntries ops)) ≤ room root0)
+    (msg : String) (ann : List (String × String)) (h : push ext root (.mapRaw ops) = .error (.errCtx msg ann)) :
+    ∃ segs label, (segs, label) ∈ segsDT (.struct (Fields.ofList fields)) [] ∧
+      ann = [("data_type", label), ("field", render "$" segs)] ∧
+      render "$" segs ∈ blameRow ext fields (.mapRaw ops) := by
+  have hg0 := reachable_goodH_root ext fields root0 h0 hcov htot [] root0 rfl
+  have hg := reachable_goodH_root ext fields root0 h0 hcov htot rows root hb
+  have hroom := foldl_push_room ext rows root0 root hg0 hrows (by omega) hb
+  have hbig : ∀ p len v fs c nx sn, root = .struct p len v fs c nx sn → fs.length ≤ UNKNOWN_KEY := by
+    intro p len v fs c nx sn hr
+    have hsh := hg.shape
+    rw [hr] at hsh
+    simp only [Shape] at hsh
+    obtain ⟨_, sfs, hs, hl⟩ := hsh
+    cases hs
+    rw [ShapeL_length fs _ hl, toList_ofList]; exact hlen
+  exact C18_ser_blame_raw ext (.struct (Fields.ofList fields)) "$" false [] root0 (by simpa [newRoot, newDT] using h0)
+    rows root hb ops halt hg.wf hg.nd hg.shape htot hraw (by unfold NoCap; omega) hbig msg ann h
+
 /-! ### non-vacuity: every hypothesis is met by a schema, a history and a failing record -/
 
 /-- a record the schema `exSchema` accepts -/
@@ -189,5 +232,19 @@ example :
     cases hr : runRows {} exSchema [exRowOk, exRowOk] with
     | ok root => exact ⟨root, rfl⟩
     | error e => rw [hr] at key; cases key
+
+/-- non-vacuity of `C18_ser_blame_raw_reachable`: the record as the raw stream `key "a", value "s"` into `exSchema2`
+(`a: Int32` refuses the string), as the first record -/
+example :
+    exSchema2.all coveredWF = true ∧ total (.struct (Fields.ofList exSchema2)) false [] = true ∧
+    exSchema2.length ≤ UNKNOWN_KEY ∧
+    isAlternating (.key (.str "a") (.value (.str "s") .nil)) = true ∧
+    noRawe (toEntries (.key (.str "a") (.value (.str "s") .nil))) = true ∧
+    (newRoot exSchema2).toOption.all (fun r => decide
+      (sizeSum {} [] + vsize {} (.map (toEntries (.key (.str "a") (.value (.str "s") .nil)))) ≤ room r)) = true ∧
+    runRows {} exSchema2 [.mapRaw (.key (.str "a") (.value (.str "s") .nil))] =
+      .error (.errCtx "serialize_str is not supported" [("data_type", "Int32"), ("field", "$.a")]) ∧
+    blameRow {} exSchema2 (.mapRaw (.key (.str "a") (.value (.str "s") .nil))) = ["$.a"] :=
+  ⟨by decide, by decide, by decide, by decide, by decide, by decide +kernel, by decide +kernel, by decide +kernel⟩
 
 end SaModel.Props.C18
